@@ -113,6 +113,12 @@ def main(tier, seed, replay=None):
             return op, [s, sub]
         if op in ("StrPrefixOf", "StrSuffixOf"):
             return op, [sub, s]
+        if op == "StrIndexOf" and rng.random() < 0.35:
+            # overlapping occurrences: "ana" in "banana", "aa" in "aaaa"
+            u1, u2 = rng.choice(["a", "ab", "\\", "."]), rng.choice(["n", "b", "", "("])
+            t = u1 + u2 + u1
+            base = rng.choice(["", "b", "x"]) + (u1 + u2) * rng.randrange(2, 4) + u1 + rng.choice(["", "z"])
+            return op, [base, t, rng.randrange(0, len(base) + 2)]
         if op == "StrIndexOf":
             base = s + rng.choice(["", sub]) + s[:2] + rng.choice(["", sub])
             return op, [base, sub, rng.choice([0, 1, 2, len(base), len(base) + 1, len(base) + 5, rng.randrange(8)])]
